@@ -4,6 +4,7 @@ import Driver.C09
 import Driver.C10
 import Driver.C05
 import Driver.C03
+import Driver.C07
 open Driver
 
 def handle (line : String) : String :=
@@ -13,6 +14,7 @@ def handle (line : String) : String :=
   | "c09" :: args => c09 args
   | "c05" :: args => c05 args
   | "c03" :: args => c03 args
+  | "c07" :: args => c07 args
   | "c10" :: args => c10 args
   | "c12" :: args => c12 args
   | "c14" :: args => c10 args
